@@ -6,6 +6,7 @@ import FrappyProofs.Lemmas.ActivateExplicit
 import FrappyProofs.Lemmas.ActivateTables
 import FrappyProofs.Lemmas.ActivateMatch
 import FrappyProofs.Lemmas.ActivateLossExplicit
+import FrappyProofs.Lemmas.ActivateExported
 import FrappyModel.Generated.C08
 /-
 C08 — property theorems (nothing but property theorems and their non-vacuity examples).
@@ -149,6 +150,19 @@ theorem tables_own_explicit (cfg : Cfg) (hs : Conn → List Req) (us : Nat → L
   intro k c hk
   obtain ⟨s, hs1, hs2, hs3⟩ := h2 k c hk
   exact ⟨s, hs1, hs2, (mem_liveAfter' σ.trace c s).1 hs3⟩
+
+/-- A scope consists of exported parameters of exported modules only: whatever is activated (also the whole node) and
+whatever the updaters assign to (also parameters with `export=False` and parameters of modules that are not exported), every
+update that is ever delivered — by a snapshot or by a broadcast — is of a parameter in `cfg.pars m` of a module in `cfg.mods`. -/
+theorem only_exported (cfg : Cfg) (hs : Conn → List Req) (us : Nat → List (Mod × Par × Entry))
+    (cache : Mod → Par → Entry) (σ : State) (h : Reach cfg (init hs us cache) σ) :
+    ∀ c m p e, Obs.deliver c m p e ∈ σ.trace → m ∈ cfg.mods ∧ p ∈ cfg.pars m :=
+  (onlyExported_iff cfg σ.trace).1 (expInv_reach cfg hs us cache σ h).tr
+
+/-- the Boolean form the driver evaluates on implementation traces is that statement -/
+theorem only_exported_monitor_exact (cfg : Cfg) (tr : List Obs) :
+    OnlyExported cfg tr ↔ ∀ c m p e, Obs.deliver c m p e ∈ tr → m ∈ cfg.mods ∧ p ∈ cfg.pars m :=
+  onlyExported_iff cfg tr
 
 /-- The lock discipline of the repaired code (`_lock` → `updateLock` → `_subscription_lock`) cannot
 deadlock: in no reachable state with an unfinished thread is every thread blocked. -/
@@ -355,6 +369,24 @@ example (σ : State) (h : σ.active 2 = true) :
   · intro h1 h2
     have h3 : modPart (pkey mT pTarget) = mT.val := modPart_pkey mT pTarget
     simp [listens, unregister, h1, h2, h3]
+
+/-- `only_exported` is about something: connection 1 is active for the whole node, the updater assigns to the hidden
+parameter `#h` of `T` (not in `cfg.pars`) and to a parameter of the module `H` that is not exported: both are stored without
+any event, the exported one in between is delivered -/
+def mH : Mod := ⟨['H'], by decide⟩
+def pHidden : Par := ['#', 'h']
+def exInit6 : State :=
+  init (fun c => if c = 1 then [.activate .all] else [])
+       (fun k => if k = 1 then [(mT, pHidden, .val 4), (mT, pTarget, .val 5), (mH, pTarget, .val 6)] else []) (fun _ _ => .val 0)
+
+example : ((run exCfg2 exInit6 ((List.replicate 10 (⟨.h 1, 0⟩ : Act)) ++ [⟨.u 1, 0⟩, ⟨.u 1, 0⟩] ++
+      [⟨.u 1, 0⟩, ⟨.u 1, 0⟩, ⟨.u 1, 1⟩, ⟨.u 1, 0⟩, ⟨.u 1, 0⟩] ++ [⟨.u 1, 0⟩, ⟨.u 1, 0⟩, ⟨.u 1, 0⟩])).map (fun σ =>
+      (σ.trace.drop 3, finished σ (.u 1), σ.trace.all (exportedOk exCfg2)))) =
+    some ([.emit 1 mT pTarget (.val 5), .deliver 1 mT pTarget (.val 5), .emitDone 1], true, true) := by
+  decide +kernel
+
+/-- … and the monitor rejects a delivery of the hidden parameter -/
+example : [Obs.reqStart 1 (.activate .all), .deliver 1 mT pHidden (.val 4)].all (exportedOk exCfg2) = false := by decide +kernel
 
 /-- the monitors are not trivially true: the pinned tree's log `update 7, inactive, update 5` is rejected … -/
 example : silentMon.accepts
